@@ -897,24 +897,24 @@ static carquet_status_t load_dictionary_page_fread(
  * replaces it; carquet_column_read_batch releases parked buffers on entry.
  */
 
-static void retire_page_data(carquet_column_reader_t* reader) {
+static bool retire_page_data(carquet_column_reader_t* reader) {
     if (!reader->page_data_for_values) {
-        return;
+        return true;
     }
     if (reader->num_retired_pages >= reader->retired_pages_capacity) {
         int32_t new_cap = reader->retired_pages_capacity ? reader->retired_pages_capacity * 2 : 4;
         uint8_t** grown = realloc(reader->retired_pages, (size_t)new_cap * sizeof(uint8_t*));
         if (!grown) {
-            /* Cannot park it: fall back to releasing it now */
-            free(reader->page_data_for_values);
-            reader->page_data_for_values = NULL;
-            return;
+            /* Cannot park it, and values already handed out in this call
+             * still point into it: keep it and let the caller fail */
+            return false;
         }
         reader->retired_pages = grown;
         reader->retired_pages_capacity = new_cap;
     }
     reader->retired_pages[reader->num_retired_pages++] = reader->page_data_for_values;
     reader->page_data_for_values = NULL;
+    return true;
 }
 
 void carquet_column_reader_release_retired(carquet_column_reader_t* reader) {
@@ -1154,7 +1154,11 @@ static carquet_status_t load_next_page_mmap(
      * which persists for the reader's lifetime, so no retention needed. */
     if (decompressed && reader->type == CARQUET_PHYSICAL_BYTE_ARRAY &&
         page_header.data_page_header.encoding == CARQUET_ENCODING_PLAIN) {
-        retire_page_data(reader);
+        if (!retire_page_data(reader)) {
+            free(decompressed);
+            CARQUET_SET_ERROR(error, CARQUET_ERROR_OUT_OF_MEMORY, "Failed to retain page buffer");
+            return CARQUET_ERROR_OUT_OF_MEMORY;
+        }
         reader->page_data_for_values = decompressed;
     } else {
         free(decompressed);
@@ -1364,7 +1368,14 @@ static carquet_status_t load_next_page_fread(
                    page_header.data_page_header.encoding == CARQUET_ENCODING_PLAIN);
 
     if (retain) {
-        retire_page_data(reader);
+        if (!retire_page_data(reader)) {
+            if (compressed && compressed != page_data) {
+                free(compressed);
+            }
+            free(page_data);
+            CARQUET_SET_ERROR(error, CARQUET_ERROR_OUT_OF_MEMORY, "Failed to retain page buffer");
+            return CARQUET_ERROR_OUT_OF_MEMORY;
+        }
         reader->page_data_for_values = page_data;
         /* Free compressed buffer only if it's a separate allocation */
         if (compressed && compressed != page_data) {
